@@ -20,6 +20,28 @@ pub fn feed<T: Uni>(xs: &[f64]) -> T {
     t
 }
 
+/// One chunk summarised through one of the construction paths (C20 demands that they are
+/// interchangeable; the merge-tree checks rotate through them so that a defect confined to one
+/// path — a blocked `extend`, a batched `from_iter` — meets the merge histories too).
+pub fn build_uni<T: Uni>(xs: &[f64], mode: usize) -> T {
+    match mode % 4 {
+        0 => xs.iter().collect(),
+        1 => feed(xs),
+        2 => {
+            let mut t = T::new();
+            if T::HAS_EXTEND {
+                t.extend_val(xs);
+            } else {
+                for &x in xs {
+                    t.add(x);
+                }
+            }
+            t
+        }
+        _ => xs.iter().copied().collect(),
+    }
+}
+
 pub fn n_bucket(n: usize) -> &'static str {
     match n {
         0 => "n=0",
